@@ -462,6 +462,27 @@ class Check:
                                         'oracle': f['native'], 'output': res.get('output', '')})
                     print(f'VIOLATION property={self.prop} replay={path}')
                     violations.append(None)
+        # thorough tier: besides the longer solver budget, every native oracle family named by the scenarios is run once
+        # on the real code with a larger budget and the run's seed (bounded exploration, reported separately, never
+        # counted as proof); a failing input is a violation
+        self.family_runs = []
+        if self.tier == 'thorough' and not (self.only or self.partial):
+            specs = {}
+            for ob in self.obligations:
+                o = ob.meta.get('oracle')
+                if o:
+                    specs[json.dumps(o, sort_keys=True, default=str)] = o
+            for key, o in sorted(specs.items()):
+                spec = dict(o)
+                spec.update(seed=self.seed, n=max(int(o.get('n', 0) or 0), 120), budget_s=240, witness={})
+                res = run_native(self.prop, spec, timeout=900)
+                self.family_runs.append({'oracle': o, 'result': res['status']})
+                if res['status'] == 'fails':
+                    path = write_replay(self.prop, f"oracle-family-{o.get('name')}", {
+                        'property': self.prop, 'obligation': f"{self.prop}/(native oracle family {o.get('name')})",
+                        'oracle': spec, 'native': res, 'witness': {}, 'replayed_on_real_code': True})
+                    print(f'VIOLATION property={self.prop} replay={path}')
+                    violations.append(None)
         exit_code = 0
         nviol = 0
         for ob in violations:
@@ -564,6 +585,7 @@ class Check:
                 'undecided': [{'obligation': o.name, 'status': o.status, 'note': o.note} for o in unknown]
                 + self.undecided,
                 'known_findings_replayed': self.native_checks,
+                'native_oracle_family_runs_thorough': getattr(self, 'family_runs', []),
                 'samples': samples,
                 'tables': self.samples,          # pack-provided tables (ck.samples): decided rows listed for the reader
                 'repo_tree_sha': self.P.tree_sha(),
@@ -576,6 +598,8 @@ class Check:
             'wall_s': round(time.time() - self.t0, 2),
             'violations': nviol,
         }
+        if getattr(self, 'no_evidence', False):
+            return
         os.makedirs(os.path.join(VERIF, 'evidence'), exist_ok=True)
         with open(os.path.join(VERIF, 'evidence', f'{self.prop}.json'), 'w') as f:
             json.dump(ev, f, indent=1, default=str)
